@@ -460,8 +460,45 @@ func main() {
 		}
 		jobs = append(jobs, j)
 	}
-	results := make([]result, len(jobs))
-	lib.CsRunParallel(len(jobs), 6, func(i int) {
+	type ojob struct {
+		engine  string
+		skipped []string
+		sched   []ostep
+		random  bool
+		seed    uint64
+	}
+	var ojobs []ojob
+	for _, e := range []string{lib.EngMem, lib.EngBadger} {
+		for ci, sc := range overlapCorpus() {
+			var sk []string
+			if ci == 3 {
+				sk = []string{"/registry/skip"}
+			}
+			ojobs = append(ojobs, ojob{engine: e, skipped: sk, sched: sc, seed: 5})
+		}
+	}
+	nOver := 30
+	if args.Tier != "quick" {
+		nOver = 400
+	}
+	for i := 0; i < nOver; i++ {
+		e := lib.EngMem
+		if i%5 == 4 {
+			e = lib.EngBadger
+		}
+		var sk []string
+		if rnd.Chance(1, 4) {
+			sk = []string{"/registry/skip"}
+		}
+		ojobs = append(ojobs, ojob{engine: e, skipped: sk, random: true, seed: rnd.U64()})
+	}
+	results := make([]result, len(jobs)+len(ojobs))
+	lib.CsRunParallel(len(jobs)+len(ojobs), 6, func(i int) {
+		if i >= len(jobs) {
+			o := ojobs[i-len(jobs)]
+			results[i] = runOverlap(i, o.seed, o.engine, o.skipped, args.Scratch, o.sched, o.random)
+			return
+		}
 		j := jobs[i]
 		results[i] = runCase(i, j.seed, j.cls, j.engine, j.skipped, args.Scratch, j.plans, j.sweep, j.unc)
 	})
@@ -477,7 +514,7 @@ func main() {
 	}
 	w.Stats.Extra["partition_streams"] = partitionStreams
 	w.Stats.Extra["partitions_answering_differently"] = mixedPartitions
-	if err := w.Finish("histories from the five request classes (increasing, repeated, decreasing, zero, above-current) and mixtures, interleaved with write bursts, an optional unknown-outcome write (retry-queue cap) and List/limited List/Count/scanner Count/ListByStream at revisions around the floor, followed by a sweep over every revision from init-1 to current+1 through every read path (List unlimited and with limits 1, 2, 500, scanner Count, ListByStream whole and per advertised partition); zigzag class = at least three compactions high/low/in-between, some through a second Backend on the same store, with 1-3 compaction ranges; distinct = SHA-256 of the Coq case; non-trivial = at least one refused and one served read"); err != nil {
+	if err := w.Finish("histories from the five request classes (increasing, repeated, decreasing, zero, above-current) and mixtures, interleaved with write bursts, an optional unknown-outcome write (retry-queue cap) and List/limited List/Count/scanner Count/ListByStream at revisions around the floor, followed by a sweep over every revision from init-1 to current+1 through every read path (List unlimited and with limits 1, 2, 500, scanner Count, ListByStream whole and per advertised partition); zigzag class = at least three compactions high/low/in-between, some through a second Backend on the same store, with 1-3 compaction ranges; distinct = SHA-256 of the Coq case; overlap cases: 2-3 Backend.Compact calls on logical threads advanced one engine call at a time (the calls touching the compaction record are the yield points), fixed schedules (older request parked before its commit while the newer completes, the symmetric order, both read first, on top of an earlier floor, and the witness of finding C08-F1) and random interleavings with reads in between, on memkv and Badger; non-trivial = at least one refused and one served read (and, for overlap cases, a step taken while another thread was alive)"); err != nil {
 		fmt.Fprintln(os.Stderr, err)
 		os.Exit(2)
 	}
